@@ -1,4 +1,5 @@
 """C18 workloads: seeded random histories, the bounded exhaustive sweep, crash-point programs."""
+import copy
 import itertools
 import time
 
@@ -1189,6 +1190,30 @@ def large_programs_c18(n=300):
     prog("pinv_auto_large", (E1, call("pinv_solve", A=S("L1"), b=wa, alg="Auto", akw={"max_iters": 5})),
          (E2, call("pinv_solve", A=S("L2"), b=wb, alg="Auto", akw={"max_iters": 5})))
     prog("diag_exact_large", (E1, call("diag_exact", A=S("L1"), k=-1)), (E2, call("diag_exact", A=S("L2"), k=-1)))
+    # nesting at mid size: the user operator's product itself calls cola on ANOTHER operator of the same size and dtype
+    # (a workspace shared between the outer and the inner call would be overwritten); afterwards the same call, not nested
+    for nn in (230, 320):
+        Pn = _psd({"k": "probe", "inner": {"k": "tridiag", "n": nn, "dtype": "f8", "seed": 91, "symm": True}, "pid": 0})
+        Kn = {"k": "no_dispatch", "of": {"k": "tridiag", "n": nn, "dtype": "f8", "seed": 92, "symm": False}}
+        vn, bn = arr([nn], "f8", 93), arr([nn, 2], "f8", 94)
+        for name, outer, inner in [
+                ("diag_exact_in_diag_exact", call("diag_exact", A=S("L1"), k=0), call("diag_exact", A=S("L2"), k=0)),
+                ("trace_exact_in_diag_exact", call("diag_exact", A=S("L1"), k=0), call("trace_exact", A=S("L2"))),
+                ("diag_exact_in_trace_exact", call("trace_exact", A=S("L1")), call("diag_exact", A=S("L2"), k=1)),
+                ("to_dense_in_to_dense", call("to_dense", A=S("L1")), call("to_dense", A=S("L2"))),
+                ("cg_in_cg", call("cg", A=S("L1"), b=bn, max_iters=6), call("cg", A=S("L2"), b=bn, max_iters=6)),
+                ("gmres_in_cg", call("cg", A=S("L1"), b=vn, max_iters=6), call("gmres", A=S("L2"), b=vn, max_iters=6)),
+                ("lanczos_in_lanczos", call("lanczos", A=S("L1"), v0=vn, max_iters=8), call("lanczos", A=S("L2"), v0=vn, max_iters=8)),
+                ("arnoldi_in_arnoldi", call("arnoldi", A=S("L1"), v0=vn, max_iters=8), call("arnoldi", A=S("L2"), v0=vn, max_iters=8)),
+                ("matvec_in_matvec", call("matvec", A=S("L1"), x=bn), call("matvec", A=S("L2"), x=bn))]:
+            for at in (0, 1):
+                nested = dict(copy.deepcopy(outer), x={"cb": {str(at): ["reenter", 0]}}, menu=[copy.deepcopy(inner)])
+                steps = [mk("L1", Pn), mk("L2", Kn), nested, dict(copy.deepcopy(outer), repeat_of=2), copy.deepcopy(inner)]
+                for j, st in enumerate(steps):
+                    st["id"] = j
+                out.append({"name": "nested/%s/n=%d/at=%d" % (name, nn, at),
+                            "program": {"property": "C18", "run_seed": 0, "rng0": 4, "config": {"large": "nested/" + name},
+                                        "mode": "explicit", "steps": steps}})
     return out
 
 
